@@ -121,14 +121,23 @@ def _immutable(a: list[int], k: int, v: int) -> bool:
         s.n_modes = v
     except StateError:
         n += 1
-    # augmented assignment rebinds the name to a new State; the object itself (seen through another
-    # reference, e.g. a dictionary key) keeps its occupations and its hash
+    return n == 3 and s.s == a
+
+
+def _iadd_rebinds(a: list[int], b: list[int]) -> bool:
+    """
+    pre: 1 <= len(a) <= 3 and all(0 <= x <= 3 for x in a)
+    pre: 0 <= len(b) <= 2 and all(0 <= x <= 3 for x in b)
+    post: _
+    """
+    # augmented assignment rebinds the name to a new State; the object itself, seen through another
+    # reference (an alias, a dictionary key, a table entry), keeps its occupations, length and photon count
+    s = State(list(a))
     alias = s
-    h = str(alias)
-    d = {alias: 1}
     t = s
-    t += State([v])
-    return n == 3 and s.s == a and alias.s == a and str(alias) == h and len(alias) == len(a) and t.s == a + [v] and State(list(a)) in d
+    t += State(list(b))
+    return (t.s == a + b and alias.s == a and s.s == a and len(alias) == len(a) and alias.n_photons == sum(a)
+            and (t is not alias) and alias == State(list(a)))
 
 
 def _shape(shape, ls):
